@@ -77,6 +77,51 @@ Section MemoProofs.
   Qed.
 End MemoProofs.
 
+(** the table with a side condition on the store step: transparent as soon as every STORED
+    input's key determines [f] (inputs that are not stored may share a key with anything) *)
+Section MemoStoreProofs.
+  Context {X K V : Type}.
+  Variable keqb : K -> K -> bool.
+  Hypothesis keqb_spec : forall a b, keqb a b = true <-> a = b.
+  Variable usable : V -> bool.
+  Variable store : X -> bool.
+  Variable key : X -> K.
+  Variable f : X -> V.
+
+  Definition sufficient_stored_on (h : list X) : Prop :=
+    forall x y, In x h -> In y h -> store x = true -> key x = key y -> f x = f y.
+
+  Lemma memo_store_from_ok : forall h t,
+    sufficient_stored_on h -> table_ok keqb key f t h ->
+    run_memo_store_from keqb usable store key f t h = map f h.
+  Proof.
+    induction h as [|x h IH]; intros t Hs Ht; [reflexivity|].
+    assert (Hs' : sufficient_stored_on h).
+    { intros a b Ha Hb. apply Hs; right; assumption. }
+    assert (Ht' : table_ok keqb key f t h).
+    { intros k v Hl y Hy Hk. apply (Ht k v Hl y); [right; assumption | assumption]. }
+    assert (Hins : table_ok keqb key f (if store x then (key x, f x) :: t else t) h).
+    { destruct (store x) eqn:St; [|exact Ht'].
+      intros k v Hl y Hy Hk. cbn [lookup] in Hl.
+      destruct (keqb k (key x)) eqn:E.
+      - injection Hl as <-. apply keqb_spec in E. subst k.
+        apply Hs; [left; reflexivity | right; assumption | assumption | symmetry; assumption].
+      - apply (Ht k v Hl y); [right; assumption | assumption]. }
+    cbn [run_memo_store_from map].
+    destruct (lookup keqb (key x) t) as [v|] eqn:L.
+    - assert (v = f x) by (apply (Ht _ _ L x); [left; reflexivity | reflexivity]). subst v.
+      destruct (usable (f x)); f_equal; apply IH; assumption.
+    - f_equal. apply IH; assumption.
+  Qed.
+
+  Theorem memo_store_transparent_on : forall history,
+    sufficient_stored_on history -> run_memo_store keqb usable store key f history = map f history.
+  Proof.
+    intros h Hs. apply memo_store_from_ok; [assumption|].
+    intros k v Hl. discriminate Hl.
+  Qed.
+End MemoStoreProofs.
+
 (** the table as the code has it: keyed by a 64-bit hash [H] of what the key function feeds.
     Premise: [H] has no collision among the keys of the history. *)
 Theorem memo_transparent_hashed :
@@ -232,6 +277,27 @@ Theorem pre_cache_sufficient' : forall B (x y : pre_input),
   pre_key x = pre_key y -> pre_deps x = pre_deps y.
 Proof. exact (pre_cache_sufficient node_eqb node_eqb_sound). Qed.
 
+(** Lsp mode: a node that reads the backend.  The real history (harness, every run): in ONE
+    thread compile [&var "PATH"] in Lsp mode on the native backend, then on the denying
+    backend: the second assembly holds the host's PATH (fresh thread: the call stays) *)
+Theorem pre_cache_backend_refuted : forall (impure : N -> bool) p, impure p = true ->
+  exists x y, pre_key_b x = pre_key_b y /\ pre_deps_b impure x <> pre_deps_b impure y.
+Proof.
+  intros impure p Hp. exists ((NPrim p 1, []), 1), ((NPrim p 1, []), 2). split; [reflexivity|].
+  unfold pre_deps_b. cbn [fst snd reads_backend]. rewrite Hp. intro H. inversion H.
+Qed.
+
+(** nodes that do not read the backend (all that Normal mode admits): the key suffices *)
+Theorem pre_cache_sufficient_b : forall impure B (x y : pre_input_b),
+  wf_body B node_eqb (fst (fst x)) = true -> wf_body B node_eqb (fst (fst y)) = true ->
+  globals (fst (fst x)) = [] -> globals (fst (fst y)) = [] ->
+  reads_backend impure (fst (fst x)) = false -> reads_backend impure (fst (fst y)) = false ->
+  pre_key_b x = pre_key_b y -> pre_deps_b impure x = pre_deps_b impure y.
+Proof.
+  intros impure B [x bx] [y b_y] Wx Wy Gx Gy Rx Ry E. unfold pre_key_b, pre_deps_b in *. cbn [fst snd] in *.
+  rewrite Rx, Ry. rewrite (pre_cache_sufficient' B x y Wx Wy Gx Gy E). reflexivity.
+Qed.
+
 (* ------------------------------------------------------------------ 1-3, 7: the [hash_deep] keys (25aa9f6, 7da4086) *)
 
 (** on a [deep] / [shallow] tree, put back the signature the table assigns to each body hash *)
@@ -350,26 +416,29 @@ Definition or_w2 : inv_input := ([NCall 75 S01c 0 88 2 (NPush 7) 9], (0, false))
 Remark inv_key_forgets_origin : inv_key or_w1 = inv_key or_w2 /\ inv_deps or_w1 <> inv_deps or_w2.
 Proof. split; [reflexivity|]. intro H. vm_compute in H. discriminate H. Qed.
 
-(** the spans-table length.  The real pair (confirmed by the harness on every run):
-      F ← ⊙5 / °F 1 6        then        F ← ⊙5 / X ← 1 / Y ← 2 / °F 1 6
-    [°F] inverts F's body [⊙5] (span indices 2, the same in both); the table has 6 spans at
-    that moment in the first program and 10 in the second; the cached [MatchPattern] carries
-    span 5: the second program's error is reported at 2:1 instead of 4:2 (and with the
-    programs in the other order the index is out of range: "The compiler has crashed") *)
-Definition len_w1 : inv_input_l := (([NMod DIP [(NPush 5, S01c)] 2], (0, false)), 6).
-Definition len_w2 : inv_input_l := (([NMod DIP [(NPush 5, S01c)] 2], (0, false)), 10).
-Theorem inv_cache_spans_len_refuted : exists x y, inv_key_l x = inv_key_l y /\ inv_deps_l x <> inv_deps_l y.
-Proof. exists len_w1, len_w2. split; [reflexivity|]. intro H. vm_compute in H. discriminate H. Qed.
+(** the spans-table length (since 868269f): an inverse whose making took [asm.spans.len() - 1]
+    is not stored; with that side condition the inverse caches are transparent for every
+    function of the keyed dependencies AND, where the inversion reads it, the table length *)
+Section StoreTransparent.
+  Context {K V : Type}.
+  Variable keqb : K -> K -> bool.
+  Hypothesis keqb_spec : forall a b, keqb a b = true <-> a = b.
 
-Theorem inv_l_fix_sufficient : forall T (x y : inv_input_l),
-  forallb (wf_sigd T) (fst (fst x)) = true -> forallb (wf_sigd T) (fst (fst y)) = true ->
-  inv_key_l_fix x = inv_key_l_fix y -> inv_deps_l x = inv_deps_l y.
-Proof.
-  intros T [x lx] [y ly] Wx Wy E. unfold inv_key_l_fix, inv_deps_l in *. cbn [fst snd] in *.
-  assert (E1 : inv_key x = inv_key y) by (apply (f_equal fst) in E; exact E).
-  assert (E2 : lx = ly) by (apply (f_equal snd) in E; exact E). subst ly.
-  rewrite (inv_cache_sufficient T x y Wx Wy E1). reflexivity.
-Qed.
+  Theorem inv_cache_store_transparent : forall T (kinj : list node * (N * bool) -> K),
+    (forall a b, kinj a = kinj b -> a = b) ->
+    forall (u : list node * (N * bool) -> bool) (g : list node * (N * bool) -> option N -> V) usable
+           (history : list inv_input_l),
+    (forall x, In x history -> forallb (wf_sigd T) (fst (fst x)) = true) ->
+    run_memo_store keqb usable (inv_store_l u) (fun x => kinj (inv_key_l x)) (inv_f_l u g) history
+    = map (inv_f_l u g) history.
+  Proof.
+    intros T kinj Hinj u g usable h W. apply (memo_store_transparent_on keqb keqb_spec).
+    intros [x lx] [y ly] Hx Hy St E. apply Hinj in E. unfold inv_key_l in E. cbn [fst] in E.
+    pose proof (inv_cache_sufficient T x y (W _ Hx) (W _ Hy) E) as D.
+    unfold inv_store_l, inv_f_l in *. cbn [fst snd] in *. rewrite <- D.
+    destruct (u (inv_deps_named x)); [discriminate St | reflexivity].
+  Qed.
+End StoreTransparent.
 
 Theorem inv_fix_sufficient : forall (V : Type) (g : list node * (N * bool) -> V),
   sufficient inv_key_fix (fun x => g (inv_deps x)).
